@@ -39,6 +39,7 @@ fn main() -> ExitCode {
         Some("run") if args.len() >= 4 => report::cmd_run(&args[2], &args[3]),
         Some("replay") if args.len() >= 3 => report::cmd_replay(&args[2]),
         Some("selfcheck") => report::cmd_selfcheck(),
+        Some("c17std") if args.len() >= 3 => ExitCode::from(envsim::c17std_main(&args[2]) as u8),
         Some("envchild") if args.len() >= 8 => ExitCode::from(envsim::child_main(&args[2..]) as u8),
         _ => usage(),
     }
